@@ -91,6 +91,20 @@ type phased interface {
 	Content() *Viol
 }
 
+// preparer instances are told the complete path before it is replayed on them (rank-abstract key
+// systems fix the concrete keys from it).
+type preparer interface{ Prepare(path []Op) }
+
+func prepare(in Inst, path []Op, last *Op) {
+	if p, ok := in.(preparer); ok {
+		full := path
+		if last != nil {
+			full = append(append([]Op{}, path...), *last)
+		}
+		p.Prepare(full)
+	}
+}
+
 // Sys creates fresh instances.
 type Sys interface {
 	Name() string
@@ -273,8 +287,12 @@ func trimStack(b []byte) string {
 
 // replay builds a fresh instance in the state reached by path.  Any violation
 // while replaying an already verified prefix is a determinism error.
-func (e *Explorer) replay(path []Op) Inst {
+func (e *Explorer) replay(path []Op) Inst { return e.replayFor(path, nil) }
+
+// replayFor replays path on a fresh instance that has been prepared for path followed by next.
+func (e *Explorer) replayFor(path []Op, next *Op) Inst {
 	in := e.Sys.New()
+	prepare(in, path, next)
 	for i, o := range path {
 		if v := safeStep(in, o, nil); v != nil && !(e.Beyond && v.Class != "panic") {
 			panic(fmt.Sprintf("tool error: divergence while replaying verified prefix at step %d (%s) of %v: %s", i, o, path, v.Msg))
@@ -287,6 +305,7 @@ func (e *Explorer) replay(path []Op) Inst {
 func describePath(s Sys, path []Op, last *Op) (calls []string) {
 	defer func() { recover() }()
 	in := s.New()
+	prepare(in, path, last)
 	for _, o := range path {
 		calls = append(calls, in.Describe(o))
 		safeStep(in, o, nil)
@@ -364,14 +383,9 @@ func (e *Explorer) Run() *Found {
 		if len(ops) > e.St.MaxAlphabet {
 			e.St.MaxAlphabet = len(ops)
 		}
-		for oi, o := range ops {
-			var in Inst
-			if oi == 0 {
-				in = base
-			} else {
-				in = e.replay(path)
-			}
+		for _, o := range ops {
 			o := o
+			in := e.replayFor(path, &o)
 			setInflight(func() string { return fmt.Sprintf("%s path=%v op=%s", e.Sys.Name(), path, o) })
 			var v *Viol
 			var k string
@@ -519,6 +533,7 @@ func (e *Explorer) ReplayOne(path []Op, last *Op) *Found {
 		e.St.Nested = map[string]int{}
 	}
 	in := e.Sys.New()
+	prepare(in, path, last)
 	for i, o := range path {
 		o := o
 		if v := safeStep(in, o, props); e.wants(v) {
